@@ -4,7 +4,7 @@ use std::sync::atomic::{AtomicBool, AtomicU32, Ordering};
 use vcore::proptest::prelude::*;
 use vcore::{Cx, Level, Res, Session};
 
-const RULE: &str = "a case is a scenario interpreted against a real emit_otlp emitter and the scripted local collector: transport {HTTP/JSON, HTTP/protobuf, gRPC} x gzip on/off x any non-empty subset of the three signals; per signal one small 'plug' event whose request the collector holds open, then 2-9 events with 300-700 KiB (sometimes tiny or >1 MiB) string payloads that accumulate into ONE batch which emit splits into 1..5+ size-limited requests; the collector answers the n-th request of that batch by script {ack, 4xx/5xx, non-zero grpc-status in trailers or in a Trailers-Only response, bare HTTP error on gRPC, close before reading, read then close, stall past the request timeout (30 s, scaled by hook H3), ack then close}; optionally one signal's endpoint is down (refused / reset / 503) for the whole case; the application ends with blocking_flush or by dropping the emitter (while batches are queued, or while a failed request waits for its back-off). Families: split (no fault), fault (1-2 scripted failures), stall, outage, drop. Non-trivial = some signal's batch needed >= 2 requests, or >= 1 request failed.";
+const RULE: &str = "a case is a scenario interpreted against a real emit_otlp emitter and the scripted local collector: transport {HTTP/JSON, HTTP/protobuf, gRPC} x gzip on/off x any non-empty subset of the three signals; per signal one small 'plug' event whose request the collector holds open, then 2-9 events with 300-700 KiB (sometimes tiny or >1 MiB) string payloads that accumulate into ONE batch which emit splits into 1..5+ size-limited requests; the collector answers the n-th request of that batch by script {ack, 4xx/5xx, non-zero grpc-status in trailers or in a Trailers-Only response, bare HTTP error on gRPC, close before reading, read then close, stall past the request timeout (30 s, scaled by hook H3) without answering / after the response HEADERS / after a fragment of the response body, ack then close}; optionally one signal's endpoint is down (refused / reset / 503) for the whole case; the application ends with blocking_flush or by dropping the emitter (while batches are queued, or while a failed request waits for its back-off). Families: split (no fault), fault (1-2 scripted failures), stall, outage, drop. Non-trivial = some signal's batch needed >= 2 requests, or >= 1 request failed.";
 
 /// Bounds shrinking cost: every evaluation of a scenario costs 0.1-30 s of real time.
 struct Guard {
@@ -58,7 +58,7 @@ fn subset(min: usize) -> impl Strategy<Value = [bool; 3]> {
 
 fn fault_kind(wire: Wire, stall: bool) -> BoxedStrategy<Fault> {
     if stall {
-        return Just(Fault::Stall).boxed();
+        return prop_oneof![Just(Fault::Stall), Just(Fault::StallAfterHeaders), Just(Fault::StallMidBody)].boxed();
     }
     match wire {
         Wire::HttpJson | Wire::HttpProto => prop_oneof![
@@ -67,6 +67,8 @@ fn fault_kind(wire: Wire, stall: bool) -> BoxedStrategy<Fault> {
             2 => Just(Fault::ReadThenClose),
             1 => Just(Fault::AckThenClose),
             1 => Just(Fault::Stall),
+            1 => Just(Fault::StallAfterHeaders),
+            1 => Just(Fault::StallMidBody),
         ]
         .boxed(),
         Wire::Grpc => prop_oneof![
@@ -77,6 +79,8 @@ fn fault_kind(wire: Wire, stall: bool) -> BoxedStrategy<Fault> {
             2 => Just(Fault::ReadThenClose),
             1 => Just(Fault::AckThenClose),
             1 => Just(Fault::Stall),
+            2 => Just(Fault::StallAfterHeaders),
+            2 => Just(Fault::StallMidBody),
         ]
         .boxed(),
     }
@@ -237,7 +241,12 @@ fn main() {
             for f in ["status-5xx", "status-4xx", "close-before-read", "read-then-close", "grpc-status", "grpc-trailers-only-status", "grpc-http-status", "ack-then-close"] {
                 s.require(&format!("fault:{f}"), if quick { 4 } else { 200 });
             }
-            s.require("fault:stall", if quick { 15 } else { 600 });
+            s.require("fault:stall", if quick { 8 } else { 300 });
+            // response head sent, then silence: the request timeout has to cover reading the response too
+            s.require("fault:grpc-stall-after-headers", if quick { 4 } else { 200 });
+            s.require("fault:grpc-stall-mid-body", if quick { 4 } else { 200 });
+            s.require("fault:http1-stall-after-headers", if quick { 4 } else { 200 });
+            s.require("fault:http1-stall-mid-body", if quick { 4 } else { 200 });
             s.require("outage:refused", if quick { 4 } else { 200 });
             s.require("outage:reset", if quick { 4 } else { 200 });
             s.require("outage:503", if quick { 4 } else { 200 });
